@@ -490,7 +490,13 @@ func runC15GCDim(c *Ctx) {
 		c.Errorf("anchors GeometryCollection.Dimension / IsEmpty do not resolve")
 		return
 	}
-	inl := func(g *ssa.Function) bool { return FuncName(g) == "geom.maxInt" }
+	inl := func(g *ssa.Function) bool {
+		switch FuncName(g) {
+		case "geom.maxInt", "geom.(GeometryCollection).NumGeometries", "geom.(GeometryCollection).GeometryN":
+			return true
+		}
+		return false
+	}
 	for _, f := range []*ssa.Function{fd, fe} {
 		problem, undec := "", ""
 		models := 0
@@ -569,7 +575,7 @@ func init() {
 	register(&Rule{
 		ID:    "C05.keywordtable",
 		Props: []string{"C05", "C20"},
-		Doc:   "sibling tables agree on the set of geometry types: every table (array, slice or map literal, local or package-level) in geom that holds three or more of the seven WKT geometry keywords (in any letter case) holds all seven — a keyword table that forgets one type makes the parser or writer treat that type differently from its six siblings (e.g. case-insensitive matching for all but GEOMETRYCOLLECTION)",
+		Doc:   "sibling tables agree on the set of geometry types: every table (array, slice or map literal, local or package-level) in geom that holds four or more of the seven WKT geometry keywords (in any letter case) holds all seven — a keyword table that forgets one type makes the parser or writer treat that type differently from its six siblings (e.g. case-insensitive matching for all but GEOMETRYCOLLECTION)",
 		Floor: 0,
 		Run:   runC05KeywordTable,
 	})
@@ -635,8 +641,8 @@ func runC05KeywordTable(c *Ctx) {
 	}
 	n := 0
 	for _, g := range groups {
-		if len(g.have) < 3 {
-			continue
+		if len(g.have) < 4 {
+			continue // the three single types, or the three Multi types, form tables of their own
 		}
 		n++
 		var missing []string
